@@ -77,7 +77,9 @@ int main(int argc, char **argv) {
             vrng_bytes(&rng, x->m, c); vrng_bytes(&rng, x->ad, d);
             memset(x->c, 0xa5, x->clen + 8);
             ST before = st[a]; unsigned long long outlen = 12345;
-            int ret = crypto_secretstream_xchacha20poly1305_push(&st[a], x->c, &outlen, x->m, c, d ? x->ad : NULL, d, (unsigned char) b);
+            int nolen = nch % 3 == 2;            /* every third push does not ask for the ciphertext length (clen_p = NULL) */
+            int ret = crypto_secretstream_xchacha20poly1305_push(&st[a], x->c, nolen ? NULL : &outlen, x->m, c, d ? x->ad : NULL, d, (unsigned char) b);
+            if (nolen) outlen = (ret == 0) ? x->clen : 12345;
             int tail_ok = 1; for (int i = 0; i < 8; i++) tail_ok &= x->c[x->clen + i] == 0xa5;
             if (bytes_out) {
                 fprintf(bytes_out, "{\"op\":\"ss_chunk\","); fbytes(bytes_out, "k", before.k, 32); fputc(',', bytes_out);
